@@ -115,3 +115,68 @@ def check_ini(ctx, n, tag):
         m = dec_ini(zs); im = impl_ini(c['lines']); acc += m is not None
         if not compare(m, im): dis.append({'case': c, 'what': 'the lines %r: model %r, parser %r' % (c['lines'], m, im)})
     return dis, {'ini_files': n, 'ini_accepted': acc, 'ini_with_continuation': sum(1 for c in inis if any(l[:1] in (' ', '\t') and l.strip() for l in c['lines']))}, inis
+
+
+# ------------------------------------------------------------------ placeholders (model/TextInterp.v)
+PRE_INTERP = PRE_INI.replace('model.Ini.', 'model.Ini model.TextInterp.') + '''
+Definition run_get (lines : list (list Z)) : list Z :=
+  match parse_ini lines with
+  | None => [0]
+  | Some st => 1 :: flat_map (fun sc => flat_map (fun o => match tget st (fst sc) (fst o) with Some v => 1 :: enc_s v | None => [0] end) (snd sc)) st
+  end.
+'''
+I_NAMES = ['a', 'b', 'rho', 'A', 'x y', 'cut']
+I_SECTS = ['Variables', 'Pair', 'Tabulation', 'Lib']
+def gen_template_value(g):
+    parts = []
+    for _ in range(g.randint(1, 3)):
+        r = g.random()
+        if r < 0.35: parts.append(g.choice(['1.5', 'as.buck', ' ', 'v', '2']))
+        elif r < 0.6: parts.append('${%s}' % g.choice(I_NAMES))
+        elif r < 0.8: parts.append('${%s:%s}' % (g.choice(I_SECTS + ['Nowhere', ' Pair']), g.choice(I_NAMES)))
+        elif r < 0.88: parts.append('$$')
+        else: parts.append(g.choice(['$', '${', '${}', '$x', '${a:b:c}', '${a}}', '}$${']))
+    return ''.join(parts)
+def gen_template_file(g):
+    lines = []
+    for s in g.sample(I_SECTS, g.randint(1, 4)):
+        lines.append('[%s]' % s)
+        for k in g.sample(I_NAMES, g.randint(0, 4)):
+            lines.append('%s %s %s' % (k, g.choice(':='), gen_template_value(g)))
+    return lines
+def impl_get_all(lines):
+    """cp.get of every option of every section, in file order (None where it is refused); None when the file is not read"""
+    import configparser
+    from atsim.potentials.config._config_parser import _RawConfigParser
+    from atsim.potentials.config._common import ConfigurationException
+    cp = _RawConfigParser()
+    try: cp.read_file(io.StringIO(''.join(l + '\n' for l in lines)))
+    except (configparser.Error, ValueError): return None
+    order = []
+    for l in lines:
+        if l.startswith('['):
+            n = l[1:l.rindex(']')]
+            if n not in order: order.append(n)
+    out = []
+    for s in order:
+        for k in (list(cp._defaults) if s == 'Variables' else list(cp._sections[s])):
+            try: out.append(cp.get(s, k))
+            except (configparser.Error, ConfigurationException, ValueError): out.append(None)
+    return out
+def check_interp(ctx, n, tag):
+    g = ctx['rng']; dis = []
+    files = [gen_template_file(g) for _ in range(n)]
+    res = sc.eval_results(tag, PRE_INTERP, ['(run_get %s)' % coq_lines(f) for f in files], chunk=60)
+    nvals = nres = 0
+    for f, zs in zip(files, res):
+        if zs[0] == 0: m = None
+        else:
+            m = []; i = 1
+            while i < len(zs):
+                if zs[i] == 0: m.append(None); i += 1
+                else:
+                    k = zs[i + 1]; m.append(''.join(chr(c) for c in zs[i + 2:i + 2 + k])); i += 2 + k
+            nvals += len(m); nres += sum(1 for x in m if x is not None)
+        im = impl_get_all(f)
+        if m != im: dis.append({'case': {'kind': 'ini', 'lines': f}, 'what': 'values of %r: model %r, parser.get %r' % (f, m, im)})
+    return dis, {'template_files': n, 'template_values': nvals, 'template_values_resolved': nres}
